@@ -195,6 +195,8 @@ def run_jobs_with_limit(jobs, workers, limit_s):
     ctx = mp.get_context('fork')
     pending = list(jobs)
     live = []           # (process, parent_conn, job, start)
+    retried = set()     # a job that hits the limit is started once more (a solver call that overruns its own timeout is not
+    #                     reproducible from run to run); canary runs get a third of the limit: they stop at the first failure
     while pending or live:
         while pending and len(live) < workers:
             job = pending.pop(0)
@@ -219,11 +221,16 @@ def run_jobs_with_limit(jobs, workers, limit_s):
                 else:
                     yield (job[1], job[2], {'error': 'CRASH worker died without a result', 'obligations': {}, 'paths': 0})
                 continue
-            if time.time() - t0 > limit_s:
+            lim = limit_s if job[2] is None else max(300, limit_s // 3)
+            if time.time() - t0 > lim:
                 pr.terminate()
                 pr.join(5)
-                yield (job[1], job[2], {'error': 'EngineError: unit exceeded the wall-clock limit of %d s and was stopped' % limit_s,
-                                        'obligations': {}, 'paths': 0})
+                if job not in retried:
+                    retried.add(job)
+                    pending.append(job)
+                    continue
+                yield (job[1], job[2], {'error': 'EngineError: unit exceeded the wall-clock limit of %d s (twice) and was stopped' % lim,
+                                        'obligations': {}, 'paths': 0, 'timed_out': True})
                 continue
             still.append((pr, pc, job, t0))
         live = still
@@ -378,6 +385,11 @@ def check_property(prop, modname, tier='quick', native=None, workers=None, extra
             (r.get('error') and False)
         canaries.append({'canary': cname, 'unit': uname, 'function': c.qual, 'killed': bool(killed),
                          'failing_obligations': failed[:6], 'error': r.get('error')})
+        if not killed and r.get('timed_out'):
+            # neither killed nor survived: the run did not finish (solver overran its timeout twice).  Recorded, not a verdict:
+            # vacuity would show as a run that finishes with every obligation discharged
+            canaries[-1]['inconclusive'] = 'stopped at the wall-clock limit'
+            continue
         if not killed and (r.get('error') or '').startswith(('canary mutation did not apply', 'Unresolved')):
             # the source no longer has the shape this canary mutates (edited tree): not a verdict
             canaries[-1]['not_applicable'] = True
